@@ -339,7 +339,8 @@ func (f *FailoverOf[V]) doBuild(
 		}
 
 		if f.config.FailedUpdateTTL > -1 {
-			writeErr := f.Errors.Write(ctx, key, err)
+			// Failure is cached for FailedUpdateTTL, not for the ttl requested for the value.
+			writeErr := f.Errors.Write(WithTTL(ctx, f.config.FailedUpdateTTL, false), key, err)
 			if writeErr != nil && f.logError != nil {
 				f.logError(ctx, "failed to cache update failure",
 					"error", writeErr,
